@@ -31,6 +31,11 @@ def _compute(tier, seed):
         recs = recs + [x for x in tlc.run('Predictive', 'Predictive_quick3.cfg').records if json.dumps(x, sort_keys=True) not in seen]
     if tier == 'thorough':
         recs = [x for i, x in enumerate(recs) if len(x['times']) < 4 or i % 4 == seed % 4]
+    # two covariates (one output, two times; both tiers): the covariate rows of the population table need two covariates AND
+    # two samples to show a mix-up
+    seen = {json.dumps(x, sort_keys=True) for x in recs}
+    recs = recs + [x for x in tlc.run('Predictive', 'Predictive_quick2cov.cfg').records
+                   if x['ncov'] == 2 and x['kind'] == 'population' and json.dumps(x, sort_keys=True) not in seen]
     from . import replay_predictive, validate_traces
     results = pmap(replay_predictive.replay_case, [(rec, seed) for rec in recs])
     stage1 = replay_predictive.population_stage_records(seed)
